@@ -1,6 +1,7 @@
 package main
 
 import (
+	"go/constant"
 	"go/ast"
 	"go/token"
 	"go/types"
@@ -472,4 +473,189 @@ func (c *Ctx) nodeMust(info *types.Info, pkg *types.Package, n ast.Node, pred fu
 		}
 	}
 	return false
+}
+
+// nodeCallsVia: n contains a call to target, or to an unexported function of
+// target's package that reaches target through static calls (a private helper
+// wrapped around the call).  Returns the call expression found.
+func (c *Ctx) nodeCallsVia(info *types.Info, n ast.Node, target *types.Func) *ast.CallExpr {
+	if ce := nodeCalls(info, n, target); ce != nil {
+		return ce
+	}
+	key := "reachVia:" + FuncName(target)
+	reach, ok := c.memo[key].(map[*types.Func]bool)
+	if !ok {
+		pk := ""
+		if target.Pkg() != nil {
+			pk = target.Pkg().Path()
+		}
+		reach = c.staticReach(func(p string) bool { return p == pk }, target)
+		c.memo[key] = reach
+	}
+	for _, ce := range callsIn(n, false) {
+		if g := originOf(Callee(info, ce)); g != nil && reach[g] && !g.Exported() && !c.evalLikeSet()[g] {
+			return ce
+		}
+	}
+	return nil
+}
+
+// helperResultEntails: h is a boolean helper of this module; whenever it
+// returns `want`, goal holds — every return that can give `want` is either
+// unreachable without crossing an edge of h that entails goal, or returns an
+// expression whose being `want` entails goal.  cls classifies atoms inside h.
+func (c *Ctx) helperResultEntails(h *types.Func, want bool, cls func(info *types.Info) func(e ast.Expr) (string, bool), goal func(v map[string]bool) bool) bool {
+	fd := c.declOf[h]
+	if fd == nil || fd.Body == nil {
+		return false
+	}
+	sig := h.Type().(*types.Signature)
+	if sig.Results().Len() != 1 {
+		return false
+	}
+	if b, ok := sig.Results().At(0).Type().Underlying().(*types.Basic); !ok || b.Kind() != types.Bool {
+		return false
+	}
+	pkg := c.pkgOf[fd]
+	info := pkg.TypesInfo
+	fc := c.cfgOf(FuncUnit{h, fd, pkg}, nil)
+	k := cls(info)
+	cut := fc.edgesEntailing(k, goal)
+	nret := 0
+	for _, b := range fc.G.Blocks {
+		if !fc.Live(b) {
+			continue
+		}
+		for _, n := range b.Nodes {
+			rs, ok := n.(*ast.ReturnStmt)
+			if !ok {
+				continue
+			}
+			nret++
+			if len(rs.Results) != 1 {
+				return false
+			}
+			if tv, ok := info.Types[rs.Results[0]]; ok && tv.Value != nil && tv.Value.Kind() == constant.Bool {
+				if constant.BoolVal(tv.Value) != want {
+					continue
+				}
+			}
+			if !fc.reachableAvoiding(b, cut) {
+				continue
+			}
+			if fc.exprEntails(rs.Results[0], want, nil, k, goal) {
+				continue
+			}
+			return false
+		}
+	}
+	return nret > 0
+}
+
+// boundParam: in a call h(args...), the parameter of h that receives the
+// caller's object o as a plain identifier argument (nil if none).
+func boundParam(info *types.Info, ce *ast.CallExpr, h *types.Func, o types.Object) types.Object {
+	sig := h.Type().(*types.Signature)
+	for i, a := range ce.Args {
+		if i < sig.Params().Len() && identObj(info, a) == o && o != nil {
+			return sig.Params().At(i)
+		}
+	}
+	return nil
+}
+
+// nilResultGuardEdges: edges of fc on which a local is known nil where that
+// local's only definition is a call to a checker helper h of this module and
+// h can return nil only across one of its own guard edges (guardOf applied to
+// h's graph): `if lerr := checkKey(k); lerr != nil { return lerr }` guards what
+// follows exactly as the tests written inside checkKey would.
+func (c *Ctx) nilResultGuardEdges(fc *FCFG, guardOf func(fc *FCFG) []cfgEdge) []cfgEdge {
+	return c.nilResultGuardEdgesAt(fc, func(h *FCFG, _ *types.Func, _ *ast.CallExpr) []cfgEdge { return guardOf(h) })
+}
+
+// nilResultGuardEdgesAt is nilResultGuardEdges with a guard recipe that sees
+// the helper and the call (to bind the caller's objects to its parameters).
+func (c *Ctx) nilResultGuardEdgesAt(fc *FCFG, guardOf func(hfc *FCFG, h *types.Func, call *ast.CallExpr) []cfgEdge) []cfgEdge {
+	var out []cfgEdge
+	seen := map[types.Object]bool{}
+	for _, b := range fc.G.Blocks {
+		cond := fc.CondOf(b)
+		if !fc.Live(b) || cond == nil {
+			continue
+		}
+		ast.Inspect(cond, func(n ast.Node) bool {
+			id, ok := n.(*ast.Ident)
+			if !ok {
+				return true
+			}
+			o, ok := fc.Info.Uses[id].(*types.Var)
+			if !ok || seen[o] || o.IsField() {
+				return true
+			}
+			seen[o] = true
+			ce, idx, ndefs := definingCall(fc.Info, fc.Body, o)
+			if ce == nil || ndefs != 1 {
+				return true
+			}
+			h := originOf(Callee(fc.Info, ce))
+			if h == nil || !c.nilOnlyBehind(h, idx, func(hfc *FCFG) []cfgEdge { return guardOf(hfc, h, ce) }) {
+				return true
+			}
+			out = append(out, fc.nilEdges(o, true)...)
+			return true
+		})
+	}
+	return out
+}
+
+// nilOnlyBehind: every return of h whose idx-th result is (or may be) nil is
+// unreachable without crossing a guard edge of h.
+func (c *Ctx) nilOnlyBehind(h *types.Func, idx int, guardOf func(fc *FCFG) []cfgEdge) bool {
+	fd := c.declOf[h]
+	if fd == nil || fd.Body == nil {
+		return false
+	}
+	pkg := c.pkgOf[fd]
+	info := pkg.TypesInfo
+	hfc := c.cfgOf(FuncUnit{h, fd, pkg}, nil)
+	guards := guardOf(hfc)
+	if len(guards) == 0 {
+		return false
+	}
+	sig := h.Type().(*types.Signature)
+	nret := 0
+	for _, b := range hfc.G.Blocks {
+		if !hfc.Live(b) {
+			continue
+		}
+		for _, n := range b.Nodes {
+			rs, ok := n.(*ast.ReturnStmt)
+			if !ok {
+				continue
+			}
+			nret++
+			if len(rs.Results) != sig.Results().Len() || idx >= len(rs.Results) {
+				return false
+			}
+			// a result that is certainly non-nil: a call to an error constructor / composite
+			if ce, ok := ast.Unparen(rs.Results[idx]).(*ast.CallExpr); ok {
+				if f := Callee(info, ce); f != nil {
+					switch f.Name() {
+					case "Errorf", "Error", "ErrorCondition", "ErrorConditionf", "New":
+						continue
+					}
+				}
+			}
+			// a variable returned only where it was shown non-nil
+			if o := identObj(info, rs.Results[idx]); o != nil {
+				if nn := hfc.nilEdges(o, false); len(nn) > 0 && !hfc.reachableAvoiding(b, nn) {
+					continue
+				}
+			}
+			if hfc.reachableAvoiding(b, guards) {
+				return false
+			}
+		}
+	}
+	return nret > 0
 }
